@@ -204,7 +204,10 @@ def _c17_stages(tier):
     common = dict(cmd="c17", shards=16, timeout=3000, crash_is_violation=True, crash_desc="child process died while decoding",
                   confirm=dict(cmd="c17-one", cpu=200))
     return [dict(variant="vh", crash_witness="/verif/build/c17.current.json.{shard}", **common),
-            dict(variant="vh-bin", crash_witness="/verif/build/c17.current.bin.{shard}", **common)]
+            dict(variant="vh-bin", crash_witness="/verif/build/c17.current.bin.{shard}", **common),
+            # the decoder's output is a function of its input alone: concurrent decodes of separate streams
+            dict(variant="vh", cmd="c17-conc", shards=4, timeout=3000),
+            dict(variant="vh-race", cmd="c17-conc", shards=4, timeout=3000, race=True, args=["-scale", "0.5"])]
 
 
 CHECKS["C17"] = dict(
@@ -456,24 +459,41 @@ _ADD = {
            "before the update and updated afterwards (its field must never show).",
     "C02": " Half of the cases run after a pool history: filtered, discarded and unfinished events that were handed arrays, dictionaries and "
            "objects of their own.",
-    "C04": " During the inertness sweep the package-level callbacks (TimestampFunc, the error / stack / interface / caller / level marshal "
+    "C04": " WithLevel(Panic/Fatal), Info and Log are also called right after a Panic() event that was written, discarded by the caller or by a hook, "
+           "sampled out or filtered (and recovered from). During the inertness sweep the package-level callbacks (TimestampFunc, the error / stack / interface / caller / level marshal "
            "functions) are replaced by counting ones.",
-    "C06": " Some chains start with Logger.Panic() (recovered): the event carries a completion callback while other goroutines take events "
+    "C06": " Next to the console destinations another goroutine logs through a ConsoleWriter whose destination refuses or truncates every line."
+           " Some chains start with Logger.Panic() (recovered): the event carries a completion callback while other goroutines take events "
            "from the same pool.",
     "C08": " The settings include caller-supplied InterfaceMarshalFunc values (wrapping, always failing): whatever they render, both builds "
            "must show the same.",
     "C14": " Panic-level events start with Logger.Panic() (recovered) in half of the cases.",
     "C15": " Some bodies end in CR LF or consist of CR LF only.",
-    "C17": " Text contents are also enumerated from 18 units (ASCII needing escapes, well-formed multi-byte runes incl. U+FFFD, truncated / "
+    "C17": " G goroutines (2-16, GOMAXPROCS 1/2/16) decode their own valid or truncated streams at the same time through all entry points, also into "
+           "a destination that yields inside Write: every result must equal the same decode done alone (also under the race detector)."
+           " Text contents are also enumerated from 18 units (ASCII needing escapes, well-formed multi-byte runes incl. U+FFFD, truncated / "
            "overlong / surrogate / out-of-range sequences) up to three units, in six positions. A shard whose input runs for 20 s stops with "
            "a suspicion; the witness is decoded alone under RLIMIT_CPU (200 CPU-seconds) and reported as non-termination if it uses them up.",
     "C18": " Remote addresses include bare IPv6 literals without port.",
-    "C19": " Every third statement runs after a pool history: events discarded (by the caller or a hook), filtered, panicking or written "
+    "C03": " Msgf finalizers are also written without operands, with text that means something to fmt (escaped / dangling percent signs, verbs "
+           "without operands); the slice handed to Hook(...) is overwritten by the caller afterwards.",
+    "C05": " The slice handed to Hook(...) is overwritten by the caller right after the call.",
+    "C12": " One run in eight contains a zero-length message (Write(nil) / Write([]byte{})).",
+    "C10": " One run in eight contains a zero-length message.",
+    "C11": " One run in eight contains a zero-length message.",
+    "C13": " A quarter of the Logger runs derive their loggers (Sample, With, Output) while sampling is globally disabled and re-enable it before logging.",
+    "C16": " Before a fifth of the renderings another ConsoleWriter edits, in place, the PartsOrder its constructor gave it.",
+    "C19": " Helper chains 5 to 1000 frames deep report their caller with one CallerSkipFrame(N+2) or N+2 calls of CallerSkipFrame(1)."
+           " Every third statement runs after a pool history: events discarded (by the caller or a hook), filtered, panicking or written "
            "elsewhere, with skip counts of their own.",
 }
 for _k, _v in _ADD.items():
-    CHECKS[_k]["level_text"] += _v
+    if _k in CHECKS:
+        CHECKS[_k]["level_text"] += _v
 CHECKS["C19"]["require"]["statements_after_pool_history"] = 300
 CHECKS["C02"].setdefault("require", {})["cases_after_pool_history"] = 1000
 CHECKS["C06"].setdefault("require", {})["panic_entry_events"] = 100
 CHECKS["C17"]["require"]["text_grid_inputs"] = 10000
+CHECKS["C17"]["require"]["concurrent_decodes"] = 1000
+CHECKS["C12"]["require"]["runs_with_zero_length_message"] = 50
+CHECKS["C13"].setdefault("require", {})["loggers_derived_while_sampling_disabled"] = 100
